@@ -1105,9 +1105,14 @@ class CircuitSerializer(serializer.Serializer):
             tags = [
                 deserialized_constants[tag_index]
                 for tag_index in operation_proto.tag_indices
-                if deserialized_constants[tag_index] not in op.tags
-                and deserialized_constants[tag_index] is not None
+                if deserialized_constants[tag_index] is not None
             ]
+            # The tag list is written in the order of `op.tags`.  Tags already restored from
+            # gate-specific fields (e.g. PhysicalZTag) keep that position when they are listed
+            # too; only the ones that are not listed stay in front.
+            restored = [tag for tag in op.tags if tag not in tags]
+            op = op.untagged
+            tags = restored + tags
         else:
             tags = []
             for tag in operation_proto.tags:
